@@ -61,7 +61,7 @@ def instances(tier, seed):
     for i in glwe:
         i.name = "c06s_" + i.name
         i.core = i.core and i.params["k"] == 12
-    seeds = [i for i in c19.enc_instances() if "gglwe" in i.name]
+    seeds = [i for i in c19.enc_instances(tier) if "gglwe" in i.name and ("b12_k36_ds2_dn1" in i.name or tier == "thorough")]
     for i in seeds:
         i.name = "c06s_" + i.name
         i.core = "b12_k36_ds2_dn1_r21_sym1" in i.name
